@@ -2,13 +2,15 @@
 (* (A) every small CMAP file: up to 2 molecules with 0..2 label rows each and one end marker, every order of the  *)
 (* rows, every id filter: the reader as modelled satisfies C17 and never aborts.                                   *)
 EXTENDS Cmap, Json
-CONSTANTS Ids, Coords, Ends, MaxLabels
+CONSTANTS Ids, Coords, Ends, MaxLabels, LabelChans   \* LabelChans: label colours the molecule with the largest id may use
 VARIABLE pool   \* rows not yet placed in the file (the file order is chosen row by row)
-RowsOf(c, n, xs, e) == {[cid |-> c, chan |-> 1, pos |-> xs[j]] : j \in 1..n} \cup {[cid |-> c, chan |-> 0, pos |-> e]}
+RowsOf(c, n, xs, e, ch) == {[cid |-> c, chan |-> ch, pos |-> xs[j]] : j \in 1..n} \cup {[cid |-> c, chan |-> 0, pos |-> e]}
+ChansOf(c) == IF \A d \in Ids : d <= c THEN LabelChans ELSE {1}
 Init == /\ \E S \in SUBSET Ids : \E flt \in SUBSET Ids :
-           \E spec \in [S -> {<<n, xs, e>> \in (0..MaxLabels) \X [1..MaxLabels -> Coords] \X Ends :
+           \E spec \in [S -> {<<n, xs, e, ch>> \in (0..MaxLabels) \X [1..MaxLabels -> Coords] \X Ends \X LabelChans :
                                 \A j \in 1..(n-1) : xs[j] <= xs[j+1]}] :
-              /\ pool = UNION {RowsOf(c, spec[c][1], spec[c][2], spec[c][3]) : c \in S}
+              /\ \A c \in S : spec[c][4] \in ChansOf(c)
+              /\ pool = UNION {RowsOf(c, spec[c][1], spec[c][2], spec[c][3], spec[c][4]) : c \in S}
               /\ filter = flt
         /\ rows = <<>> /\ kept = <<>> /\ groups = <<>> /\ gi = 1 /\ maps = <<>> /\ status = "running" /\ pc = "gen"
 Place == /\ pc = "gen" /\ pool # {} /\ \E r \in pool : rows' = Append(rows, r) /\ pool' = pool \ {r}
